@@ -3,6 +3,7 @@ package sim
 import (
 	"context"
 	"flag"
+	"sync"
 	"encoding/json"
 	"fmt"
 	"io"
@@ -126,6 +127,7 @@ type World struct {
 	brPodHandler           handler.EventHandler
 	brWorkloadHandler      handler.EventHandler
 
+	CurrentItem  *QItem // the work item being reconciled (nil outside reconciles)
 	Reconciles   int
 	Panics       []string
 	ReconcileLog []string
@@ -136,6 +138,10 @@ type World struct {
 	Excluded map[string]int
 
 	cache map[schema.GroupVersionKind]map[types.NamespacedName]client.Object
+
+	// Concurrent switches on the API lock (several reconciles in flight, C19b)
+	Concurrent bool
+	mu         sync.Mutex
 }
 
 // Options configure a world.
@@ -194,7 +200,50 @@ func (w *World) Restart() {
 	}
 }
 
-func (w *World) Client(actor string) client.Client { return &simClient{w: w, actor: actor} }
+func (w *World) Client(actor string) client.Client {
+	return &simClient{w: w, actor: actor, raw: actor == ActorHandler || actor == ActorWebhook}
+}
+
+// lock serialises API calls in the concurrent mode (C19b); a no-op otherwise.
+func (w *World) lock() func() {
+	if !w.Concurrent {
+		return func() {}
+	}
+	w.mu.Lock()
+	return w.mu.Unlock
+}
+
+// TakeWork pops the first pending item (concurrent mode).
+func (w *World) TakeWork() (QItem, bool) {
+	defer w.lock()()
+	if len(w.pending) == 0 {
+		return QItem{}, false
+	}
+	return w.dequeue(0), true
+}
+
+// ReconcileConcurrently runs one reconcile without touching single-threaded bookkeeping.
+func (w *World) ReconcileConcurrently(it QItem) (err error, panicked string) {
+	r := w.reconcilers[it.Ctrl]
+	if r == nil {
+		return nil, ""
+	}
+	var out reconcile.Result
+	func() {
+		defer func() {
+			if p := recover(); p != nil {
+				panicked = fmt.Sprintf("%s Reconcile(%s) panicked: %v\n%s", it.Ctrl, it.Key, p, stack())
+			}
+		}()
+		out, err = r.Reconcile(context.TODO(), reconcile.Request{NamespacedName: it.Key})
+	}()
+	if err != nil || out.Requeue || out.RequeueAfter != 0 {
+		unlock := w.lock()
+		w.enqueue(it.Ctrl, it.Key)
+		unlock()
+	}
+	return
+}
 
 func (w *World) noteFault(op OpInfo, when string, err error) {
 	w.FaultLog = append(w.FaultLog, fmt.Sprintf("op#%d %s %s %s %s/%s: %s %v", op.Index, op.Actor, op.Verb, op.GVK.Kind, op.Key.Namespace, op.Key.Name, when, err))
@@ -411,9 +460,11 @@ func (w *World) reconcileItem(it QItem) ReconcileResult {
 		return res
 	}
 	w.Reconciles++
-	if t := w.Track(); t != nil {
+	for _, t := range w.Tracks() {
 		t.ReconcileStart = w.seq
 	}
+	w.CurrentItem = &it
+	defer func() { w.CurrentItem = nil }()
 	var out reconcile.Result
 	func() {
 		defer func() {
